@@ -1,0 +1,76 @@
+//! Passive I/O tap: records `(file, kind, offset, bytes)` of every mutation issued
+//! through [`crate::io::disk::DBFile`] for files under a registered directory.
+use std::path::{Path, PathBuf};
+use std::sync::Mutex;
+
+#[derive(Clone, Copy, Debug, PartialEq, Eq)]
+pub enum Kind {
+    Create,
+    Write,
+    SetLen,
+    Sync,
+    Mark,
+}
+
+#[derive(Clone, Debug)]
+pub struct Ev {
+    pub kind: Kind,
+    /// File name (last path component).
+    pub file: String,
+    pub off: u64,
+    pub data: Vec<u8>,
+    /// Harness annotation (only for [`Kind::Mark`]).
+    pub note: String,
+}
+
+static LOG: Mutex<Option<(PathBuf, Vec<Ev>)>> = Mutex::new(None);
+
+fn lock() -> std::sync::MutexGuard<'static, Option<(PathBuf, Vec<Ev>)>> {
+    LOG.lock().unwrap_or_else(|e| e.into_inner())
+}
+
+/// Start recording mutations of files below `dir`.
+pub fn start(dir: &Path) {
+    *lock() = Some((dir.to_path_buf(), Vec::new()));
+}
+
+/// Stop recording and return the log.
+pub fn stop() -> Vec<Ev> {
+    lock().take().map(|x| x.1).unwrap_or_default()
+}
+
+/// Number of events recorded so far.
+pub fn len() -> usize {
+    lock().as_ref().map(|x| x.1.len()).unwrap_or(0)
+}
+
+/// Insert a harness marker into the log (totally ordered with the writes).
+pub fn mark(note: &str) {
+    if let Some((_, v)) = lock().as_mut() {
+        v.push(Ev {
+            kind: Kind::Mark,
+            file: String::new(),
+            off: 0,
+            data: Vec::new(),
+            note: note.to_string(),
+        });
+    }
+}
+
+/// Called by the engine's file layer.
+pub fn tap(kind: Kind, p: &Path, off: u64, data: &[u8]) {
+    if let Some((d, v)) = lock().as_mut() {
+        if p.starts_with(&*d) {
+            v.push(Ev {
+                kind,
+                file: p
+                    .file_name()
+                    .map(|f| f.to_string_lossy().to_string())
+                    .unwrap_or_default(),
+                off,
+                data: data.to_vec(),
+                note: String::new(),
+            });
+        }
+    }
+}
